@@ -43,10 +43,10 @@ type postAnswer struct {
 }
 
 type scriptedRT struct {
-	mu       sync.Mutex
-	posts    []*pendingPost // all POSTs seen
-	open     map[int]*pendingPost
-	maxOpen  int
+	mu      sync.Mutex
+	posts   []*pendingPost // all POSTs seen
+	open    map[int]*pendingPost
+	maxOpen int
 }
 
 func (rt *scriptedRT) RoundTrip(req *http.Request) (*http.Response, error) {
